@@ -26,6 +26,12 @@ func runC07(c *Ctx) {
 	c.checkModelSiblings()
 	c.checkWeightedAccumulation("weighted-accumulation")
 	L.Floor("weighted-accumulation", 12, "accumulations in the five counters and probaNt")
+	L.Rule("accumulator-reset", "in InitModel, a receiver field that is accumulated into (m.f = m.f + x) is assigned afresh earlier in the same call on every path, so that initialising the same model object for another alignment does not start from the previous value")
+	nAcc := 0
+	for _, m := range dnaModels {
+		nAcc += c.checkAccumulatorReset("accumulator-reset", c.fn("distance/dna", "*"+m, "InitModel"))
+	}
+	L.Floor("accumulator-reset", 1, "F81's b1")
 	c.checkFullScan("full-scan", "distance/dna", "selectedSites")
 	L.Floor("full-scan", 2, "site loop and sequence loop of the gap-site selection")
 	L.Trusts("IEEE-754 comparison semantics: every ordered comparison with NaN is false, != is true")
@@ -380,7 +386,7 @@ func (c *Ctx) checkSubstitutionBranch() {
 
 func (c *Ctx) checkModelSiblings() {
 	L := c.L
-	L.Rule("model-siblings", "every model's InitModel stores selectedSites(al, weights, m.removegaps) into m.selectedSites (and m.numSites) and alignmentToCodes(al) into m.sequenceCodes; every Distance passes m.selectedSites and its own weights parameter to the counter it calls")
+	L.Rule("model-siblings", "every model's InitModel stores selectedSites(al, weights, m.removegaps) into m.selectedSites (and m.numSites) and alignmentToCodes(al) into m.sequenceCodes, unconditionally (on every path to a normal return: nothing is cached from a previous alignment); every Distance passes m.selectedSites and its own weights parameter to the counter it calls")
 	for _, m := range dnaModels {
 		ri := c.fn("distance/dna", "*"+m, "InitModel")
 		if ri.ok() {
@@ -402,11 +408,11 @@ func (c *Ctx) checkModelSiblings() {
 					if _, fl, base := loadedField(a[2]); base != nil && fl == "removegaps" && base == ssa.Value(fn.Params[0]) {
 						rg = true
 					}
-					if a[0] == ssa.Value(fn.Params[1]) && a[1] == ssa.Value(fn.Params[2]) && rg && resultStoredToField(call, 1, "selectedSites") {
+					if a[0] == ssa.Value(fn.Params[1]) && a[1] == ssa.Value(fn.Params[2]) && rg && resultStoredToField(call, 1, "selectedSites") && c.callExecutedOnAllPaths(fn, call) {
 						okSel = true
 					}
 				case "alignmentToCodes":
-					if call.Common().Args[0] == ssa.Value(fn.Params[1]) && resultStoredToField(call, 0, "sequenceCodes") {
+					if call.Common().Args[0] == ssa.Value(fn.Params[1]) && resultStoredToField(call, 0, "sequenceCodes") && c.callExecutedOnAllPaths(fn, call) {
 						okCodes = true
 					}
 				}
